@@ -220,7 +220,7 @@ def run_check(check, tier, seed):
         for b, n in lock.get("bases", {}).items():
             if b not in cur:
                 shape_changed.append(b)
-    if not all_obs and not undecided:
+    if not all_obs and not undecided and not getattr(check, "NO_DEDUCTIVE", False):
         faults.append("zero obligations generated")
 
     # ---- 4 bounded native part
